@@ -417,6 +417,18 @@ func (r *run) opWorldRemoveTag(a added, k string) {
 	r.c.Note("wrm")
 }
 
+// opFromWorld: the caller takes a copy of a feature of the world (NewFeatureFromWorld), as callers and
+// MutableOverlayWorld itself do before modifying a feature
+func (r *run) opFromWorld(a added) {
+	r.do(fmt.Sprintf("fromworld %s %d", kindWord[a.k], a.id.Value), func() string {
+		f := ingest.NewFeatureFromWorld(r.w.FindFeatureByID(a.id))
+		r.vars = append(r.vars, f)
+		return "ok"
+	})
+	r.exposed[len(r.vars)-1] = true
+	r.c.Note("fromworld:" + kindWord[a.k])
+}
+
 // mut applies one mutator of the feature API, given in the driver's syntax, to vars[i]
 func (r *run) mut(i int, m string) {
 	f := r.vars[i]
@@ -661,6 +673,9 @@ func randomStep(run *run, r *hx.Rand, focus kind) {
 		}
 	case x <= 8:
 		run.opAdd(r.Intn(nv))
+	case x == 10 && len(run.added) > 0 && nv < 7:
+		keys := hx.SortedKeys(run.added)
+		run.opFromWorld(run.added[keys[r.Intn(len(keys))]])
 	case x == 9 && len(run.added) > 0:
 		keys := hx.SortedKeys(run.added)
 		a := run.added[keys[r.Intn(len(keys))]]
@@ -858,6 +873,11 @@ func growCase(c *hx.Ctx) {
 		targets = append(targets, len(run.vars)-1)
 		c.Note("grow:clone-of-grown")
 	}
+	if replaced && r.Chance(2, 3) {
+		run.opFromWorld(run.added[key(k, b6.FeatureID{Type: kindType[k], Namespace: ns, Value: id})])
+		targets = append(targets, len(run.vars)-1)
+		c.Note("grow:copy-from-world")
+	}
 	// 4. in-place mutation of the elements beyond the old length (and one old one), through every holder
 	rounds := 2 + r.Intn(3)
 	for round := 0; round < rounds; round++ {
@@ -879,6 +899,42 @@ func growCase(c *hx.Ctx) {
 				c.Note("grow:inplace-beyond-old-len:tags:" + kw)
 			}
 			run.mut(v, fmt.Sprintf("settag %s=x%d", t[i].Key, r.Intn(10)))
+		}
+	}
+	// 4b. append through every holder, then through the world: an append that did not re-allocate a shared
+	//     array would overwrite (or expose) another holder's element
+	if r.Chance(2, 3) {
+		for _, v := range targets {
+			f := run.vars[v]
+			switch {
+			case k == kRelation && r.Bool():
+				run.mut(v, "appmember "+memberText(r))
+			case k == kCollection && r.Bool():
+				run.mut(v, fmt.Sprintf("appkv k%d v%d", 60+v, r.Intn(30)))
+			case k == kArea && f.(*ingest.AreaFeature).Len() > 0 && r.Bool():
+				a := f.(*ingest.AreaFeature)
+				i := r.Intn(a.Len())
+				ids, _ := a.PathIDs(i)
+				run.mut(v, fmt.Sprintf("setpathid %d %d %d", i, len(ids), pick64(r, pathValues)))
+			default:
+				for _, tk := range tagKeys {
+					if !f.Get(tk).IsValid() {
+						run.mut(v, fmt.Sprintf("addtag %s=y%d", tk, v))
+						break
+					}
+				}
+			}
+			c.Note("grow:append-through-holder:" + kw)
+		}
+		if replaced {
+			a := run.added[key(k, b6.FeatureID{Type: kindType[k], Namespace: ns, Value: id})]
+			for _, tk := range tagKeys {
+				if !run.w.FindFeatureByID(a.id).Get(tk).IsValid() {
+					run.opWorldTag(a, tk, "wy")
+					c.Note("grow:world-appends-tag")
+					break
+				}
+			}
 		}
 	}
 	// 5. the other direction: the world edits its (grown) entry in place
@@ -938,7 +994,16 @@ func corpus(c *hx.Ctx) {
 		r.mut(7, "setpoly 0 P3")
 		r.opAdd(7)
 		r.mut(7, "setpathids 0 [14 15]")
+		r.mut(7, "addtag name=area")
 		r.opAdd(7)
+		// copies taken from the world (NewFeatureFromWorld) are the caller's own: tags, path ids, keys
+		r.opFromWorld(added{kArea, b6.FeatureID{Type: b6.FeatureTypeArea, Namespace: ns, Value: 100}})
+		r.mut(8, "settag name=COPY")
+		r.mut(8, "setpathid 0 1 10")
+		r.opFromWorld(added{kCollection, b6.FeatureID{Type: b6.FeatureTypeCollection, Namespace: ns, Value: 7}})
+		r.mut(9, "settag name=COPY")
+		r.mut(9, "setkey 0 COPYK")
+		r.opWorldTag(added{kArea, b6.FeatureID{Type: b6.FeatureTypeArea, Namespace: ns, Value: 100}}, "name", "WORLD")
 	}
 	c.NonTrivial()
 }
@@ -946,7 +1011,7 @@ func corpus(c *hx.Ctx) {
 func main() {
 	hx.Main(hx.Family{
 		Name: "c38",
-		Rule: "1 case in 3: the grown-value scenario (a short value is stored, then replaced / merged by a longer one - more members, polygons, path ids, keys+values, tags -, then elements beyond the old length are mutated in place through the grown value, a clone of it and a MergeFrom receiver; buckets grow:*); otherwise random interleavings (8-29 ops) of new/Clone/MergeFrom/every feature mutator/world.AddFeature/world.AddTag/RemoveTag over generic, area, relation and collection features and three kinds of mutable world (basic, overlay, overlay over a base holding the referenced paths); ids from small ranges so that adds replace earlier entries; 1 in 40 indices out of range (must panic and change nothing); non-trivial = at least one mutation of a value that had been added to the world, cloned, or is a clone (or a world-side tag edit); distinct = by hash of the op text",
+		Rule: "1 case in 3: the grown-value scenario (a short value is stored, then replaced / merged by a longer one - more members, polygons, path ids, keys+values, tags -, then elements beyond the old length are mutated in place through the grown value, a clone of it, a MergeFrom receiver and a copy taken back from the world (NewFeatureFromWorld), then every holder and the world append; buckets grow:*); otherwise random interleavings (8-29 ops) of new/Clone/MergeFrom/NewFeatureFromWorld/every feature mutator/world.AddFeature/world.AddTag/RemoveTag over generic, area, relation and collection features and three kinds of mutable world (basic, overlay, overlay over a base holding the referenced paths); ids from small ranges so that adds replace earlier entries; 1 in 40 indices out of range (must panic and change nothing); non-trivial = at least one mutation of a value that had been added to the world, cloned, or is a clone (or a world-side tag edit); distinct = by hash of the op text",
 		Quick:    2500,
 		Thorough: 80000,
 		Corpus:   corpus,
